@@ -2,13 +2,14 @@ package stk
 
 import (
 	"bytes"
-	"runtime"
-	"sort"
 	"context"
 	"errors"
 	"fmt"
 	"hash/fnv"
 	"io"
+	"net"
+	"runtime"
+	"sort"
 	"strings"
 	"sync"
 	"time"
@@ -250,7 +251,51 @@ func RunTierB(prop string, st *simcore.Stream, tier, leg string, logOn bool, res
 		}
 		nextID++
 		id := nextID
-		switch st.Intn(10) {
+		switch st.Intn(11) {
+		case 10: // bytes from nobody in particular: raw datagrams / a raw TCP connection towards a node's socket
+			la := eps[to].LocalAddrs()[0]
+			hostport := la[strings.LastIndex(la, "@")+1:]
+			if _, _, err := net.SplitHostPort(hostport); err != nil || spec == "udp" || spec == "udp6" {
+				// not a socket address (in-memory swarm); or the bare UDP swarm, where any datagram IS a message
+				continue
+			}
+			junk := func() []byte {
+				b := make([]byte, simcore.Pick(st, 0, 1, 4, 5, 20, 64, 300, 1200, 1400))
+				st.Bytes(b)
+				switch st.Intn(6) {
+				case 0: // looks like a QUIC long header (Initial, version 1)
+					copy(b, []byte{0xc3, 0, 0, 0, 1, 8})
+				case 1: // QUIC version negotiation trigger
+					copy(b, []byte{0x80, 0xff, 0xff, 0xff, 0xff})
+				case 2: // P2PKE InitHello counter
+					copy(b, []byte{0, 0, 0, 0})
+				case 3: // P2PKE data counter
+					copy(b, []byte{0, 0, 0, 16})
+				case 4:
+					copy(b, []byte("SSH-2.0-x\r\n"))
+				}
+				return b
+			}
+			if strings.HasSuffix(spec, "ssh") {
+				if c, err := net.DialTimeout("tcp", hostport, time.Second); err == nil {
+					c.SetDeadline(time.Now().Add(300 * time.Millisecond))
+					c.Write([]byte("SSH-2.0-attacker\r\n"))
+					for k := 0; k < 1+st.Intn(3); k++ {
+						c.Write(junk())
+					}
+					if st.Bool(1, 2) {
+						io.Copy(io.Discard, c)
+					}
+					c.Close()
+				}
+			} else if c, err := net.Dial("udp", hostport); err == nil {
+				for k := 0; k < 1+st.Intn(6); k++ {
+					c.Write(junk())
+				}
+				c.Close()
+			}
+			res.Fault("raw-bytes-to-socket")
+			time.Sleep(5 * time.Millisecond)
 		case 9: // a Receive (or ServeAsk) whose context is cancelled while it is blocked
 			if to == closedNode {
 				continue
@@ -615,6 +660,7 @@ func RunTierB(prop string, st *simcore.Stream, tier, leg string, logOn bool, res
 		"C04": {"wrong-source-identity": true, "wrong-key-for-source": true, "lookup-in-handler-failed": true, "wrong-key-for-address": true, "whitelisted-out-delivered": true, "delivered-to-wrong-identity": true},
 		"C09": {"refused-within-mtu": true, "accepted-above-mtu": true, "not-delivered-within-mtu": true, "delivered-not-intact": true},
 		"C11": {"buffer-changed-in-callback": true, "ask-wrong-answer": true, "ask-success-without-handler": true, "ask-success-after-handler-failure": true, "ask-truncated-success": true, "ask-bad-length": true, "ask-request-not-asked": true, "ask-never-returned": true},
+		"C08": {},
 		"C13": {"cancel-not-prompt": true, "cancelled-call-wrong-error": true},
 		"C16": {"address-does-not-parse": true, "address-changes-in-round-trip": true, "address-not-equal-after-round-trip": true},
 		"C12": {"goroutines-not-released": true, "late-call-blocked": true, "success-after-close": true, "delivery-after-close": true},
